@@ -1,6 +1,6 @@
 """Rule kit: the query vocabulary shared by the rule modules (C01..C18)."""
 import re
-from norm import norm, core, subterms, contains, key_variant, const_value, const_int, is_param
+from norm import norm, core, subterms, contains, key_variant, const_value, const_int, is_param, variant_name, find
 from model import effects, state_effects, auths, STATE_KINDS
 from guards import guard_edges, negate
 from fmt import fmt
